@@ -212,6 +212,50 @@ def main():
                     npr.default_rng = real_rng
                     np.random.default_rng = real_rng
                 res['decode'].append(rec)
+    # the clean lattice (all-zero syndrome): every offered decoder, MBP on the 3-D codes too, every noise option.  Some decoders
+    # return a non-trivial operator for it (MBP under pure noise); whatever the library decoder returns is what /decode must return.
+    for name, klass in G.codes.items():
+        cls = klass.__name__
+        size = dsizes[klass.dimension]
+        if not dc.supported(cls, size):
+            size = (2, 2) if klass.dimension == 2 else (2, 2, 3)
+            if not dc.supported(cls, size):
+                continue
+        offered = [d_ for d_, k in G.decoders.items() if k.allowed_codes is None or cls in k.allowed_codes]
+        for dec_name in offered:
+            for em_name in G.noise_directions:
+                code = klass(*size)
+                syn = [0] * code.stabilizer_matrix.shape[0]
+                bp_iter, alpha, beta, p_dec = 1, 0.4, 0, 0.1
+                body = {'Lx': size[0], 'Ly': size[1], 'code_name': name, 'code_deformation_name': 'None', 'syndrome': syn, 'p': p_dec,
+                        'noise_deformation_name': 'None', 'max_bp_iter': bp_iter, 'alpha': alpha, 'beta': beta, 'decoder': dec_name, 'error_model': em_name}
+                if len(size) == 3:
+                    body['Lz'] = size[2]
+                rec = {'menu': name, 'cls': cls, 'size': list(size), 'decoder': dec_name, 'code_deformation': 'None', 'noise_deformation': 'None', 'error_model': em_name,
+                       'max_bp_iter': bp_iter, 'alpha': alpha, 'beta': beta, 'syndrome': syn, 'p_decode': p_dec, 'clean_lattice': True}
+                try:
+                    with contextlib.redirect_stdout(io.StringIO()):
+                        npr.default_rng = lambda *a, **k: real_rng(1234)
+                        np.random.default_rng = npr.default_rng
+                        r = client.post('/decode', json=body)
+                        rec['status'] = r.status_code
+                        em = PauliErrorModel(*G.noise_directions[em_name], None)
+                        kw = {}
+                        if dec_name == 'BP-OSD':
+                            kw = {'max_bp_iter': bp_iter, 'osd_order': 0}
+                        if dec_name == 'MBP':
+                            kw = {'max_bp_iter': bp_iter, 'alpha': alpha, 'beta': beta}
+                        lib = G.decoders[dec_name](code, em, p_dec, **kw).decode(np.array(syn))
+                        if r.status_code == 200:
+                            d = r.get_json(force=True)
+                            rec['equal'] = (d['x'] == np.asarray(lib[:code.n]).tolist() and d['z'] == np.asarray(lib[code.n:]).tolist())
+                            rec['library_weight'] = int(np.count_nonzero(np.asarray(lib)))
+                except Exception as ex:
+                    rec['exception'] = '%s: %s' % (type(ex).__name__, ex)
+                finally:
+                    npr.default_rng = real_rng
+                    np.random.default_rng = real_rng
+                res['decode'].append(rec)
     json.dump(res, open(out, 'w'))
     print(len(res['code_data']), 'code-data requests', len(res['decode']), 'decode/new-errors requests')
 
